@@ -153,9 +153,14 @@ std::unique_ptr<semantic::RSForm> OpMaxPart::Execute() {
 
 VectorOfEntities OpMaxPart::GetAllCstMaxPart() const {
   SetOfEntities selList = arguments;
-  for (const auto entity : schema.List()) {
-    if (!selList.contains(entity) && CheckCst(entity, selList)) {
-      selList.emplace(entity);
+  auto changed = true;
+  while (changed) { // Note: list order is not aligned with dependencies, so iterate until nothing can be added
+    changed = false;
+    for (const auto entity : schema.List()) {
+      if (!selList.contains(entity) && CheckCst(entity, selList)) {
+        selList.emplace(entity);
+        changed = true;
+      }
     }
   }
   return schema.List().SortSubset(selList);
